@@ -594,7 +594,7 @@ func (p *parser) scanString(offset int) (string, error) {
 	// " ' /
 	quote := rune(p.str[offset])
 
-	for p.chr != quote {
+	for p.chr != quote || p.chr < 0 { // inside a [...] class quote is -1, which is also what p.chr is at the end of input
 		chr := p.chr
 		if chr == '\n' || chr == '\r' || chr == '\u2028' || chr == '\u2029' || chr < 0 {
 			goto newline
